@@ -10,7 +10,7 @@
                                        (connect failure, timer, disconnect(), updateMetadata, and the disabled ones)
      CInv                              invariant of every reachable state (C10_reachable) *)
 From AV Require Import Base.Util Model.Framing Model.BrokerClient Model.BrokerClientHook
-  Proofs.BrokerClientTbl Proofs.BrokerClientInv Proofs.BrokerClientC06 Proofs.BrokerClientC10 Proofs.BrokerClientExtra Proofs.BrokerClientHook.
+  Proofs.BrokerClientTbl Proofs.BrokerClientInv Proofs.BrokerClientC06 Proofs.BrokerClientC10 Proofs.BrokerClientExtra Proofs.BrokerClientHook Proofs.BrokerClientGaps.
 
 Theorem C10_reachable : forall evs, CInv (fst (run init evs)).
 Proof. exact reachable_inv. Qed.
@@ -62,6 +62,18 @@ Theorem C10_once_per_connection : forall evs s s' o h, CInv s -> Forall (fun e =
 Proof. exact write_once. Qed.
 Print Assumptions C10_once_per_connection.
 
+(* Once per connection, lower bound, at the level of traces (C10_table_shape only speaks about the flag r_sent): every
+   run that ends connected splits at the point where the connection that is up was established (an enabled EConnOk),
+   the connection was never lost afterwards, and every entry of the final table was WRITTEN - an OWrite with its handle
+   and id - at or after that point. *)
+Theorem C10_written_on_current_connection : forall evs s outs, run init evs = (s, outs) -> s_proto s = true ->
+  exists evs1 evs2 s1 o1 s2 oc o2, evs = evs1 ++ EConnOk :: evs2 /\ run init evs1 = (s1, o1)
+    /\ s_connector s1 = CAttempt /\ step s1 EConnOk = (s2, oc) /\ stays_up s2 evs2 /\ run s2 evs2 = (s, o2)
+    /\ outs = o1 ++ oc ++ o2
+    /\ forall r, In r (t_reqs (s_t s)) -> In (OWrite (r_h r) (r_id r)) (oc ++ o2).
+Proof. exact written_on_current_connection. Qed.
+Print Assumptions C10_written_on_current_connection.
+
 (* every write carries the id its request was made with *)
 Theorem C10_write_own_id : forall evs s outs h rid, run init evs = (s, outs) -> In (OWrite h rid) outs ->
   nth_error (t_dlog (s_t s)) h = Some rid.
@@ -104,6 +116,16 @@ Theorem C10_table_shape : forall evs s outs, run init evs = (s, outs) ->
 Proof. exact table_shape. Qed.
 Print Assumptions C10_table_shape.
 
+(* What "idle" does NOT cover.  C10_reconnect_iff_pending speaks about the moment of the loss, and "idle" means: no
+   connection, no attempt, no timer.  A client whose requests were all cancelled WHILE an attempt or timer was pending is
+   not idle: cancel() removes the request but does not stop the connect loop (brokerclient.py has no such code), so the
+   timer still fires, the attempt is still made, and - if it fails again - the loop goes on with an empty table (Example
+   cancelled_during_backoff_keeps_connecting below).  The property's sentence is "re-established WHENEVER unanswered
+   requests remain" (a sufficient condition, proved: C10_never_stuck) and "an idle dropped connection is re-opened only
+   on the next request" (about a connection that dropped with nothing pending, proved: C10_reconnect_iff_pending second
+   half + C10_idle_connects_on_request); it does not say that attempts stop when requests are cancelled during back-off.
+   Read as not a violation; recorded here so that nobody reads the theorems as saying more. *)
+
 (* ... and an idle client opens a connection on the next request and on nothing else: every other event leaves it
    idle without any connection attempt (close ends it, also without one). *)
 Theorem C10_idle_connects_on_request : forall s e s' o, CInv s ->
@@ -137,6 +159,14 @@ Theorem C10_backoff : forall evs s s' o, CInv s -> (s_connector s = CAttempt \/ 
   /\ scheds o = seq (S (s_failures s)) (s_failures s' - s_failures s).
 Proof. exact backoff_run. Qed.
 Print Assumptions C10_backoff.
+
+(* Back-off BETWEEN attempts: while an attempt or a back-off timer is pending nothing but the timer firing starts a
+   connection attempt - not makeRequest, not cancel, not the failure of the pending attempt, not updateMetadata. *)
+Theorem C10_no_early_attempt : forall s e, CInv s -> (s_connector s = CAttempt \/ s_connector s = CTimer) ->
+  connects (snd (step s e)) = []
+  \/ (e = EFire /\ s_connector s = CTimer /\ snd (step s e) = [OConnect (s_addr s)]).
+Proof. exact no_early_attempt. Qed.
+Print Assumptions C10_no_early_attempt.
 
 (* Close.  At close(): every Deferred that had not fired fails with ClientError (newest first), so none is left
    pending; a pending attempt / back-off timer is cancelled, a live transport is asked to close (then the close
@@ -237,6 +267,12 @@ Example reentrant_nonvacuous :
   /\ snd (irun true init [IEv (EMake 1 true); IEv (EMake 2 true); IClose [(1%nat, [CCancel 0; CMake 3 true; CClose0])]])
   = [OConnect 0; OCancelAttempt; OCloseFired; ODef 1 FailClosed; ODef 0 FailCancelled; ODef 2 FailClosed; ORaised 2].
 Proof. vm_compute. repeat split. Qed.
+
+Example cancelled_during_backoff_keeps_connecting :
+  snd (run init [EMake 1 true; EConnFail; ECancel 0; EFire; EConnFail; EFire])
+  = [OConnect 0; OSched 1; ODef 0 FailCancelled; OConnect 0; OSched 2; OConnect 0]
+  /\ t_reqs (s_t (fst (run init [EMake 1 true; EConnFail; ECancel 0; EFire]))) = [].
+Proof. vm_compute. split; reflexivity. Qed.
 
 (* close while backing off, with two requests waiting; later events do nothing *)
 Example close_nonvacuous :
